@@ -70,6 +70,11 @@ CHECKS = {
   note="bounded: <=4 deviations per schedule, documents <=6 KB; a reader never returns 0 bytes twice in a row",
   tech="deviation-bounded exhaustive exploration of environment (io.Reader) answers + exhaustive fault positions, against a whole-input reference parse",
   ref="DESIGN.md §5 C18"),
+ "C10": dict(
+  text="three bounded-exhaustive families, no random fuzzing: (1) every token sequence of <=3 (quick) / <=4 (thorough) tokens over 44-token / 32-token alphabets of the policy and schema languages in several syntactic contexts, every 3-byte string over 21 structural bytes into all 27 decoders; (2) every document within 1 (quick) / 2 (thorough) deviations (replace by each of 10 literals, delete, duplicate, wrap, at every JSON tree position) of 24 seed documents covering every policy JSON node shape, scope form, policy set, value, entity, entity map, request, diagnostic and schema construct, plus token deletion / duplication / swap, truncation at every byte and splicing of invalid UTF-8 / NUL / quote / comment opener at every offset of text seeds; (3) nesting depth 2^k (k<=12 quick, <=22 thorough) for 18 recursive constructs in isolated worker processes; every accepted value is passed to every encoder, the authorizer, the batch authorizer and the partial evaluator",
+  note="bounded families as stated, not all byte strings; a fatal error is reported only if it recurs 3 times in a fresh process with the default stack limit; hangs are bounded by the family budget (reported as not exhaustive, never as a verdict)",
+  tech="bounded-exhaustive enumeration of token strings and of deviation-bounded neighbourhoods of valid documents (E2) with a crash-isolating subprocess runner for the depth sweep",
+  ref="DESIGN.md §5 C10"),
  "C20": dict(
   text="explicit-state BFS over all container operation histories up to the stated depth from 14 initial states, every transition executed on the real PolicySet and compared with a Go-map model and the authorization decision table",
   note="bounded: ids {a, policy1, policy10, policy2}+loaded ids, 5 policy kinds, depth 4 (quick) / 6 (thorough); model = plain Go map",
